@@ -393,3 +393,61 @@ def solver_field_consts(ctx):
         pass
     ctx.cache["solver_field_consts"] = out
     return out
+
+
+def rule_node_keeps_transitions(ctx, chk, rule):
+    """A node starts from exactly the transition list it is given (the list itself or a copy of it): a constructor that
+    filters or rewrites the list changes the game before anything is solved (an action named "" or a probability 0 is still a
+    transition)."""
+    from ..symx import SymX, show, TRUE
+    from . import kernels as K
+    roles = K.role_classes(ctx)
+    n = 0
+    for cls in sorted(set(roles.values())):
+        ctor = ctx.prog.resolve_method(cls, "__init__")
+        if ctor is None:
+            continue
+        sx = SymX(ctx, ctor, cls, inline_depth=4).run()
+        stores = [e for e in sx.final.effects if e[1] == "store" and e[3] == "next_states" and e[2] == ("v", "self")]
+        if not stores:
+            chk.undecided(rule, ctor.where(), "%s.__init__ does not store next_states" % cls)
+            continue
+        cond, _, _, _, val = stores[-1]
+        pname = [p for p in ctor.params if "next" in p]
+        param = ("v", pname[0]) if pname else None
+
+        def same_list(t, depth=0):
+            """True / text of the deviation / None"""
+            if depth > 4:
+                return None
+            if t == param:
+                return True
+            if t[0] == "call" and t[1] in ("list", "copy.copy", "copy.deepcopy") and len(t[2]) == 1:
+                return same_list(t[2][0], depth + 1)
+            if t[0] == "mcall" and t[2] == "copy" and not t[3]:
+                return same_list(t[1], depth + 1)
+            if t[0] == "slice" and t[2:] == (("c", None), ("c", None), ("c", None)):
+                return same_list(t[1], depth + 1)
+            if t[0] == "compr" and t[1] in sx.loops:
+                L = sx.loops[t[1]]
+                inner = same_list(L.source, depth + 1)
+                if inner is not True:
+                    return inner
+                if L.filters:
+                    return "keeps only the transitions with `%s`" % show(L.filters[0] if len(L.filters) == 1 else ("and", tuple(L.filters)))
+                if L.elt != ("elem", L.id) and L.elt != ("tup", (("idx", ("elem", L.id), ("c", 0)), ("idx", ("elem", L.id), ("c", 1)))):
+                    return "rewrites every transition as `%s`" % show(L.elt)
+                return True if L.whole else "takes a slice of the list"
+            return None
+        v = same_list(val)
+        n += 1
+        if v is True and cond == TRUE:
+            chk.ok(rule, ctor.where(), "%s starts from the transition list it is given (`%s`)" % (cls, show(val)[:60]))
+        elif v is None or cond != TRUE:
+            chk.undecided(rule, ctor.where(), "%s.__init__ stores next_states := `%s`%s; not recognised as the given list or a copy of it" % (
+                cls, show(val)[:100], "" if cond == TRUE else " under `%s`" % show(cond)[:60]))
+        else:
+            chk.violation(rule, ctor.where(), "%s.__init__ %s: the node does not start from the game's transition list (an action named \"\" or a probability 0 "
+                          "is still a transition - successors, strategies and the backward search disagree afterwards)" % (cls, v),
+                          expected="self.next_states = list(next_states)", found=show(val)[:140], construct="%s constructor rewrites next_states" % cls)
+    return n
